@@ -232,6 +232,10 @@ class DaskPCA(PCA):
 
         solver = self._get_solver(X, n_components)
 
+        # the SVD routines need an array chunked in the first dimension only
+        if len(X.chunks[1]) > 1:
+            X = X.rechunk({1: X.shape[1]})
+
         self.mean_ = X.mean(0)
         X -= self.mean_
 
